@@ -298,6 +298,7 @@ type Msg struct {
 	Shape uint8  // index into Shapes: concrete attributes that override what Met says (wrong value, several values, ...)
 	Err   uint8  // round 6: ErrReq = the request asks the err modifiers (KErr) to fail, ErrRes = the response does
 	Via   uint8  // round 6, through-the-proxy family only: ViaFaultRT = the upstream round trip fails (the proxy answers 502 itself), ViaConnectFail = a CONNECT whose target cannot be dialled
+	Twin  uint8  // round 8, repeat family only: 1 = the same exchange under another id (another URL): a different message with the same outcome
 }
 
 // Bits of Msg.Err and values of Msg.Via.
@@ -342,6 +343,9 @@ func (m Msg) String() string {
 	}
 	if m.Err&ErrRes != 0 {
 		s += " response-fails-err-modifier"
+	}
+	if m.Twin != 0 {
+		s += " other-id"
 	}
 	switch m.Via {
 	case ViaFaultRT:
